@@ -68,6 +68,14 @@ def gen(tier, seed, shard, nshards):
             p = int(rng.integers(2, 15))
             out = gmat.random_dag_masks(rng, p, density=None if p <= 8 else rng.uniform(0.08, 0.3))
             yield "weighted-dag", {"W": gmat.weighted(rng, out, dtype=int if k % 3 == 0 else float)}
+
+    sidx = 0
+    for pp in (6, 7, 8, 9, 10):
+        for name in sorted(gmat.named_shapes(pp)):
+            for rep in range(2):
+                if sidx % nshards == shard:
+                    yield "shape-dag", {"p": pp, "shape": name, "rep": rep}
+                sidx += 1
     for c in _gc.iter_pdag_cases((3, 4), shard, nshards):
         yield "internal", c
     for code in _gc.sample_pdag5_codes(("C15", seed), 4000 if tier == "quick" else 120000, shard, nshards):
@@ -191,6 +199,25 @@ def judge(family, case, rec):
         A = gmat.reuse(gmat.to_np(out, dtype=int if case["code"] % 4 else float))
         key = ("e", case["p"], case["code"])
         rec.count("embedded:graphs")
+    elif family == "shape-dag":
+        out0 = gmat.named_shapes(case["p"])[case["shape"]]
+        if False:
+            return
+        out = gmat.relabel(out0, util.rng_for("shape", case["p"], case["shape"], case["rep"])) if case["rep"] else list(out0)
+        rec.count("shapes:" + case["shape"])
+        if case["shape"] in ("complete", "bipartite", "layered", "ladder") and case["p"] > 8 and rec.pid == "C15":
+            return      # the recursive relations enumerate every directed path: exponential on these
+        # turn a random subset of the edges undirected for odd repetitions (a PDAG with that skeleton)
+        rngs = util.rng_for("shape-u", case["p"], case["shape"], case["rep"])
+        if case["rep"]:
+            for i in range(len(out)):
+                for j in G.bits(out[i]):
+                    if rngs.random() < 0.3:
+                        out[j] |= 1 << i
+            if not G.directed_part_acyclic(out):
+                return
+        A = gmat.hostile_array(gmat.to_np(out), case["p"] + case["rep"])
+        key = ("shape", case["p"], case["shape"], case["rep"])
     elif family == "random-pdag":
         out = list(case["masks"])
         A = gmat.reuse(gmat.to_np(out))      # the same caller-owned array object, overwritten in place between cases
